@@ -34,7 +34,7 @@ Record jcase := JC {
   j_outlinks : list bytes;           (* planted absolute http(s) URLs without extension, non-empty path *)
   j_hard : list bytes;               (* planted absolute http(s) URLs fasturl is known to reject *)
   j_hostonly : list bytes;           (* planted host-only URLs *)
-  j_embws : list bytes;              (* planted in embedded JSON surrounded by white space *)
+  j_embws : list bytes;              (* planted in embedded JSON surrounded by white space (found since the fix) *)
   j_err : bool; j_oa : list bytes; j_oo : list bytes }.
 
 Definition jdiff (c : jcase) : bool :=
